@@ -79,10 +79,14 @@ def rule_r2(prog, res) -> None:
     n = 0
     from ..inline import inlined
 
-    for m in conf.methods.values():
+    scopes = []
+    for m0 in conf.methods.values():
+        # same-module helpers through which the binning is built (e.g. a section parser) are expanded in place;
+        # closures defined in the method (e.g. a parser bound to the cosmology) are analysed as part of it
+        scopes.append(inlined(prog, m0, keep={"parse_cosmology"}))
+        scopes.extend(f for f in m0.module.all_funcs if f.parent is m0)
+    for m in scopes:
         cfg = None
-        # same-module helpers through which the binning is built (e.g. a section parser) are expanded in place
-        m = inlined(prog, m, keep={"parse_cosmology"})
         for call in calls_in(m):
             f = call.func
             tg = prog.resolve_call(m, call)
@@ -176,6 +180,13 @@ def _resolved(prog, m: FuncInfo, call: ast.Call, arg: ast.AST):
     defs = set()
     for nd in nodes:
         defs |= IN.get(nd.id, {}).get(arg.id, set())
+    if not defs and m.parent is not None and arg.id not in m.param_names():
+        # a free variable of a closure: what reaches the definition of the closure in the enclosing function
+        outer = m.parent
+        cfg, IN = reaching_defs(outer.node)
+        for nd in cfg.nodes:
+            if nd.ast is m.node:
+                defs |= IN.get(nd.id, {}).get(arg.id, set())
     if not defs:
         return False, "undefined"
     for d in defs:
